@@ -11,7 +11,7 @@ def main():
     rec = json.load(open(sys.argv[1]))
     d = vlib.stage("replay-" + rec["harness"], "replay", wide=rec.get("wide", False))
     try:
-        rr = native_replay(rec["harness"], rec["values"], d)
+        rr = native_replay(rec["harness"], rec["values"], d, features=rec.get("features"))
     finally:
         vlib.cleanup(d)
     for prof, r in rr.items():
